@@ -140,12 +140,18 @@ Definition render_om_ts (t : om_ts) : str :=
   | TsRepr r => r
   end.
 
-Definition is_valid_exemplar_metric (ftype fname : str) (s : sample) : bool :=
-  (* `metric.type in ('gaugehistogram')` is a substring test on a string, not tuple membership *)
+(* the pinned source: `histogram and _bucket or name == family` - the last clause applies to every metric type *)
+Definition is_valid_exemplar_metric_orig (ftype fname : str) (s : sample) : bool :=
   (str_eqb ftype S_counter && ends_with S_total (s_name s))
   || (contains_sub ftype S_gaugehistogram && ends_with S_bucket (s_name s))
   || (contains_sub ftype S_histogram && ends_with S_bucket (s_name s))
   || str_eqb (s_name s) fname.
+(* the repaired source (fixes/C04-exemplar-eligibility.diff): the native-histogram clause is inside the histogram test *)
+Definition is_valid_exemplar_metric (ftype fname : str) (s : sample) : bool :=
+  (* `metric.type in ('gaugehistogram')` is a substring test on a string, not tuple membership *)
+  (str_eqb ftype S_counter && ends_with S_total (s_name s))
+  || (contains_sub ftype S_gaugehistogram && ends_with S_bucket (s_name s))
+  || (contains_sub ftype S_histogram && (ends_with S_bucket (s_name s) || str_eqb (s_name s) fname)).
 
 (* exemplar label NAMES and the unit are written raw by the pinned source (findings F3, F5); [exq] = true
    models the repaired source: names through escape_label_name like sample label names, unit escaped *)
